@@ -38,17 +38,18 @@ theorem nextChunk_isProof (eh : Bytes) (size : Nat) (root : HTrie) (s : Subtree)
 theorem parLoop_isProof (eh : Bytes) (size threads : Nat) (root : HTrie) :
     ∀ (n : Nat) (pending : List Subtree), ∀ c ∈ parLoop eh size threads root n pending, IsProofOf root c := by
   intro n
+  unfold parLoop
   induction n with
-  | zero => intro p c h; simp [parLoop] at h
+  | zero => intro p c h; simp [parLoopF] at h
   | succ n ih =>
     intro p c h
-    simp only [parLoop] at h
+    simp only [parLoopF] at h
     split at h
     · simp at h
-    · simp only [parRound, List.mem_append, List.mem_map] at h
+    · simp only [parRoundF, List.mem_append, List.mem_map] at h
       rcases h with ⟨x, hx, rfl⟩ | h
       · obtain ⟨t, _, rfl⟩ := hx
-        exact nextChunk_isProof _ _ _ _
+        exact ⟨_, rfl⟩
       · exact ih _ c h
 
 /-- Every chunk of the sequential chunker is a version 0 proof for the root. -/
